@@ -242,6 +242,11 @@ JiggTokensFails(d1, toks) ==
   ELSE (IF \A i \in DOMAIN toks : toks[i].start = i - 1 /\ toks[i].cat = CatText(ls[i].cat) THEN {} ELSE {"tokens"})
     \cup (IF \A i \in DOMAIN toks : PairsOf(toks[i].attrs) = JiggTokPairs(ls[i].tok) THEN {} ELSE {"attrs"})
     \cup (IF Unique([i \in DOMAIN toks |-> toks[i].id]) THEN {} ELSE {"token_ids_not_unique"})
+(* a sentence element is self-contained: over ALL its ccg elements (the n-best derivations) span ids are unique, and so are the ids of *)
+(* the ccg elements themselves                                                                                                     *)
+JiggSentenceFails(spanids, ccgids) ==
+     (IF Unique(spanids) THEN {} ELSE {"span_ids_not_unique_in_sentence"})
+  \cup (IF Unique(ccgids) THEN {} ELSE {"ccg_ids_not_unique_in_sentence"})
 JiggCcgFails(d, ccg, toks, usesym) ==
   LET x == JBuild(ccg.spans, ccg.root, Len(ccg.spans) + 1) IN
   JiggIntegrity(ccg, toks)
